@@ -381,6 +381,24 @@ def unit_op_call(cname, method, pad):
     return Unit('ops-call/%s/%s/%s' % (cname, method, pad), run, funcs=[DO + cname + '._call', DO + 'finite_diff'], config={'class': cname, 'method': method, 'pad_mode': pad})
 
 
+def unit_fd_native_bounded():
+    """BOUNDED (never counted as proved): for every (method, pad mode) of the tables and axis lengths 2 .. 7 the real finite_diff equals the reference stencil (forward modes) and
+    its adjoint-mode matrix is minus the transpose - a stand-in that still decides when an edit moves finite_diff outside the interpreted subset (e.g. fancy indexing)."""
+    def run(ctx):
+        from contracts import replay_fd
+        I2 = om.new_interp()
+        methods, pads, _, _ = tables(I2)
+        for m in methods:
+            for p in pads:
+                kinds = ['transpose'] + (['fd'] if p in FORWARD_MODES else [])
+                for kind in kinds:
+                    case = {'kind': kind, 'method': m, 'pad_mode': p}
+                    r = replay_fd.replay({'replay': case, 'model': {'n': 6}, 'name': ''})
+                    bad = r.get('detail') if r.get('reproduced') or 'raised' in str(r.get('detail')) else None
+                    ctx.bounded('finite_diff on short axes: reference stencil / adjoint-mode matrix == -transpose', not bad, case, detail=bad)
+    return Unit('fd-native/short-axes', run, funcs=[DO + 'finite_diff'], kind='B', bounded_in='axis lengths 2 .. 7, all methods x pad modes')
+
+
 def unit_canary():
     """must-fail: forward difference claimed for the backward method"""
     def run(ctx):
@@ -536,6 +554,7 @@ def units(tier, seed):
             us.append(unit_op_call('PartialDerivative', m, p))
     for p in ('constant', 'symmetric_adjoint'):
         us.append(unit_op_call('Divergence', 'forward', p))
+    us.append(unit_fd_native_bounded())
     us.append(unit_canary())
     return us
 
@@ -581,6 +600,10 @@ def replay_class(ob):
 
 
 def replay(ob):
+    if ob['unit'].startswith('fd-native/'):
+        from contracts import replay_fd
+        case = ob.get('model') or (ob.get('replay') or {}).get('case')
+        return replay_fd.replay({'replay': case, 'model': {'n': 6}, 'name': ''})
     if ob['unit'].startswith('class/'):
         return replay_class(ob)
     from contracts import replay_fd
